@@ -22,12 +22,12 @@ RULE = ("cases from rng(seed, 15, 0, i): a cluster graph (all pose types, parall
         "20..50 calls drawn from " + ", ".join(QUERIES) + " plus optimize(max_iter 1..3); snapshot compared around each call. distinct = fingerprint(spec, history); "
         "non-trivial = history with >= 1 numerical-Jacobian call on an SE(2)/SE(3) vertex and >= 1 optimize run.")
 REQ = ["eval:query-leaves-state-unchanged", "eval:repeat-returns-identical", "eval:optimize-changes-only-poses", "eval:operands-unchanged", "eval:copy-independent"] + ["query:" + q for q in QUERIES] + [
-    "class:numerical_jacobian_on_SE_vertex", "class:parallel_edges", "class:no_fixed_vertex_prior_anchored", "class:graph_loaded_from_g2o", "class:shared_pose_storage", "class:estimate_object_reused_as_initial_pose"]
+    "class:numerical_jacobian_on_SE_vertex", "class:parallel_edges", "class:no_fixed_vertex_prior_anchored", "class:graph_loaded_from_g2o", "class:shared_pose_storage", "class:estimate_object_reused_as_initial_pose", "class:numerical_jacobian_at_stored_plus_pi"]
 PLAN = {
     "quick": {"cases": 480, "soft_s": 80, "min_nontrivial": 150, "require": REQ},
     "thorough": {"cases": 24000, "soft_s": 1400, "min_nontrivial": 6000, "require": REQ},
 }
-ASSUMPTIONS = ["SE(2) angles +pi and -pi are identified in the bitwise comparison (copy() maps a stored +pi to -pi: same pose)"]
+ASSUMPTIONS = ["floats compared with == (so -0.0 and 0.0 are identified) plus NaN == NaN; everything else bitwise"]
 
 
 def snap(g):
@@ -49,8 +49,6 @@ def nums_equal(a, b, se2=False):
         return False
     for j, (x, y) in enumerate(zip(a, b)):
         if x == y or (x != x and y != y):
-            continue
-        if se2 and j == 2 and abs(x) == math.pi and abs(y) == math.pi:
             continue
         return False
     return True
@@ -301,3 +299,28 @@ def run_case(ctx, i, rng):
     if num_se and n_opt:
         ctx.nontrivial(gen.fingerprint({"spec": spec, "hist": hist}))
     ctx.sample({"history": hist[:12], "length": len(hist), "n_vertices": len(spec["vertices"]), "n_edges": len(spec["edges"])}, cap=2)
+
+
+def pinned_f7(ctx):
+    """F7: numerical Jacobian of a custom edge at an SE(2) vertex whose stored angle is +pi (the constructor maps nextafter(-pi, -inf) to +pi)."""
+    from .. import custom
+
+    v1 = M.Vertex(1, M.PoseSE2([0.0, -2.18], math.nextafter(-math.pi, -10.0)))
+    v2 = M.Vertex(2, M.PoseSE2([33667.2, -5.19], 0.3))
+    e = custom.RelPoseEdge([1, 2], np.eye(3), M.PoseSE2([1.0, 2.0], -1.05), [v1, v2])
+    g = M.Graph([e], [v1, v2])
+    stored = float(v1.pose[2])
+    feats = {"query": "BaseEdge.calc_jacobians(numerical)", "stored_angle_plus_pi": stored == math.pi}
+    case = {"generator": "pinned_f7"}
+    before = snap(g)
+    with np.errstate(all="ignore"):
+        r1 = canon(M.BaseEdge.calc_jacobians(e))
+        mid = snap(g)
+        r2 = canon(M.BaseEdge.calc_jacobians(e))
+    d = diff_snap(before, mid) or diff_snap(before, snap(g))
+    ctx.check("query-leaves-state-unchanged", not d, feats, {"differences": d[:5], "stored_angle": stored}, case)
+    ctx.check("repeat-returns-identical", canon_equal(r1, r2), feats, {"first": str(r1)[:300], "second": str(r2)[:300]}, case)
+    ctx.count("class:numerical_jacobian_at_stored_plus_pi" if stored == math.pi else "class:plus_pi_not_stored")
+
+
+PINNED = [pinned_f7]
